@@ -21,7 +21,11 @@
    request is recorded before the PUTs and the un-management is atomic w.r.t.
    recording, a job that runs in the middle of a load only deletes keys the new
    request does not register: it commutes with the PUTs, so [Load] as ONE step is
-   exact for this variant.  The variants
+   exact for this variant.  (This commutation is an ARGUMENT, not a theorem: there
+   is no split-load model; listed in props/C14.json assumptions.  Likewise [load]
+   takes the previous request from [s_cur] whatever the kind of the previous load:
+   exact for single-mode histories — flows only, or policies only after the
+   BuildInitialFromFile load —, the model's choice for mixed ones.)  The variants
    [ByPointer] (the code before fix i: lo.Difference over freshly allocated
    pointers = every previous expression) and [ByExpr] (fix i alone) are kept to
    state what they do NOT guarantee.  Executable definitions only. *)
@@ -203,9 +207,14 @@ Definition policy_req (ds : list C13.Model.decl) (grem : list C13.Model.remedy)
   mkReq (policy_manage_all grem gdiag) (map print_expr (policy_endpoints ds)).
 
 (* ------------------------------------------------------------------ *)
-(* Correspondence entry point, suite "reload"                           *)
+(* SUPERSEDED entry point (first version of suite "reload", no           *)
+(* requirements).  No suite evaluates [rop] / [case_reload] / [rstep] /   *)
+(* [rrun] / [run_reload_with] / [run_reload] any more: suite reload       *)
+(* evaluates ReloadReq.run_reload2, which is tied to [run Recheck] by     *)
+(* ReloadReq.accepted_reload_case_is_a_run (Property:                     *)
+(* C14_accepted_reload_case_is_a_run).  Kept for the record only.         *)
 
-(* a history step as the harness performs it: the configuration itself (the
+(* a history step as the harness performed it: the configuration itself (the
    request is computed here from it), or a clock advance in ns *)
 Inductive rop :=
 | RLoadF (fl : list flow_t)
